@@ -584,6 +584,8 @@ class SReal:
     def __bool__(self): return bool(self != 0)
 
     def __repr__(self):
+        if TOKEN_REPR:
+            return _token(self)
         return 'SReal(%s)' % z3.simplify(self.zreal())
     __str__ = __repr__
 
@@ -736,6 +738,8 @@ class SInt(SReal):
                 return k
 
     def __repr__(self):
+        if TOKEN_REPR:
+            return _token(self)
         return 'SInt(%s)' % z3.simplify(self.z)
     __str__ = __repr__
 
@@ -758,6 +762,16 @@ def _register(v):
 
 def _unpickle(k):
     return _registry[k]
+
+
+# Text round trips (C20: LoggingMonitor / munge readers): with TOKEN_REPR on, a symbolic scalar prints as a Python expression
+# that evaluates (eval / exec / import of the written file) back to the very same object.  The decimal formatting of floats is
+# thereby OUTSIDE what such a harness decides; which fields are written, where, and how they are parsed back is inside.
+TOKEN_REPR = False
+
+
+def _token(v):
+    return "__import__('symex.values').values._unpickle('%s')" % _register(v)
 
 
 def sreal_const(x):
